@@ -23,7 +23,8 @@ from lib import gz, gtext, glist, gbool, gopt
 THEOREMS = ['C06_emitted_valid_partial', 'C06_decimal_literal', 'C06_decimal_literal_valid', 'C06_decimal_wire_refuted',
             'C06_nil_required_refuted', 'C06_verdicts_agree', 'C06_verdicts_agree_structure', 'C06_int_verdicts_agree', 'C06_str_verdicts_agree', 'C06_bool_verdicts_agree',
             'C06_closure_check_sound', 'C06_ex_emitted_valid', 'C06_ex_int_agree', 'C06_ex_str_agree', 'C06_ex_verdicts']
-SRC_THEOREMS = ['C06_soap_writers_iso_safe', 'C06_member_edits_reach_subclasses']
+SRC_THEOREMS = ['C06_soap_writers_iso_safe', 'C06_member_edits_reach_subclasses', 'C06_none_written_as_source_decides',
+                'C06_list_written_as_source_decides']
 FUEL = 12
 XSD_NS = 'http://www.w3.org/2001/XMLSchema'
 XSI_NS = 'http://www.w3.org/2001/XMLSchema-instance'
@@ -1312,6 +1313,56 @@ def oracle_natives(check, tier):
                 oracle_emitted(check, W, 0, 0, ['obj', 0, vals], 'native-types')
 
 
+def none_universe():
+    """every placement in which None is a conformant value: single, repeated (bounded and
+    unbounded) and Array members of leaf and class type, optional or mandatory-and-nillable"""
+    def fld(name, ty, mn, mx, nillable):
+        return {'name': name, 'ty': ty, 'min': mn, 'max': mx, 'nillable': nillable, 'kind': 'elem', 'choice': None, 'default': None}
+    leaf = ['leaf', {'base': 'integer', 'facets': {'ge': ['int', 0]}}]
+    text = ['leaf', {'base': 'string', 'facets': {}}]
+    fields, i = [], 0
+    for ty in (leaf, text, ['ref', 0], ['arr', leaf], ['arr', ['ref', 0]]):
+        for mx in (1, 3, None):
+            if ty[0] == 'arr' and mx != 1:
+                continue
+            for mn, nillable in ((0, True), (0, False), (1, True)):
+                fields.append(fld('n%d' % i, ty, mn, mx, nillable))
+                i += 1
+    return {'tns': 'urn:tns', 'classes': [
+        {'ns': 'urn:t', 'name': 'K0', 'parent': None, 'fields': [fld('a', text, 0, 1, True)]},
+        {'ns': 'urn:t', 'name': 'K1', 'parent': None, 'fields': fields}]}
+
+
+def oracle_none(check, tier):
+    """(b) for None wherever it is a conformant value (and for the shortest lists), written by the
+    three protocols: a mandatory nillable member holding None is one xsi:nil element, whether it
+    may repeat or not"""
+    rng = check.rng
+    desc = none_universe()
+    fields = desc['classes'][1]['fields']
+    for proto in ('xml', 'soap11', 'soap12'):
+        W = World(rng, desc, proto)
+        if W.compile_error:
+            check.fail('C06|compile|none-universe', 'the schema Spyne generates does not compile: ' + W.compile_error,
+                       {'kind': 'compile', 'proto': proto, 'universe': desc})
+            continue
+        oracle_emitted(check, W, 0, 1, ['obj', 1, [['none'] for _ in fields]], 'none-placements')
+        for _ in range(2 if tier == 'quick' else 10):
+            vals = []
+            for f in fields:
+                r = rng.random()
+                if r < 0.5:
+                    vals.append(['none'])
+                elif G.is_multi(f) or f['ty'][0] == 'arr':
+                    item = f['ty'][1] if f['ty'][0] == 'arr' else f['ty']
+                    one = ['obj', 0, [['text', 'x']]] if item[0] == 'ref' else (['int', 3] if item[1]['base'] == 'integer' else ['text', 'y'])
+                    n = rng.randint(max(f['min'], 0) if f['ty'][0] != 'arr' else 0, 2)
+                    vals.append(['list', [one] * n])
+                else:
+                    vals.append(['obj', 0, [['none']]] if f['ty'][0] == 'ref' else (['int', 3] if f['ty'][1]['base'] == 'integer' else ['text', 'y']))
+            oracle_emitted(check, W, 0, 1, ['obj', 1, vals], 'none-placements')
+
+
 def oracle_emitted_tagged(check, W, cid, v, key):
     rp = dict(W.urp(), kind='emitted', proto=W.proto, cid=cid, value=v, which='request')
     req = W.request(cid, v)
@@ -1349,7 +1400,10 @@ def run(check):
                   'path (which memoizes their flattened member tables), then members are appended to / inserted into / replaced in '
                   'classes (mostly classes others derive from; mandatory, restricted members; nothing but the append_field / '
                   'insert_field / _replace_field calls in between), then fresh applications over the same classes go through (a), (b) '
-                  'and (c) against what the classes declare now -- five fixed universes and six random ones per quick run. A case is distinct by '
+                  'and (c) against what the classes declare now -- five fixed universes and six random ones per quick run; None in every '
+                  'placement where it is a conformant value (single, repeated and Array members of leaf and class type, optional or '
+                  'mandatory and nillable) in a fixed universe under the three protocols, and None instead of a list for mandatory '
+                  'nillable repeated members in the random universes. A case is distinct by '
                   '(operation, protocol, document or value)')
     check.trusted = list(lib.COMMON_TRUSTED) + [
         'coq/C06/Xsd.v: the XSD validity relation for the published subset, written from XML Schema 1.0 parts 1 and 2 '
@@ -1398,7 +1452,7 @@ def run(check):
         'step never widens the first, never changes its pattern, and carries no facets when the first has gt / lt (known finding '
         'C06|compile|inherited-exclusive-bound)',
     ]
-    check.regen(['numtypes', 'xsdemit', 'xsdstate'])
+    check.regen(['numtypes', 'xsdemit', 'xsdstate', 'xmlwire'])
     check.check_sources()
     if THEOREMS:
         check.prove('Props.C06', THEOREMS)
@@ -1412,6 +1466,7 @@ def run(check):
     oracle_xns(check, tier)
     oracle_bytes(check, tier)
     oracle_natives(check, tier)
+    oracle_none(check, tier)
     oracle_evolving(check, tier)
     corr_leaf_stream(check, tier)
     corr_decimal_text(check, tier)
